@@ -257,3 +257,169 @@ def flatten_aci(t, opname):
             s |= flatten_aci(a, opname)
         return s
     return {t}
+
+
+# -------------------------------------------------------------------------------------------
+# integer round-trip rounding algorithms (DirectXMath XMVectorTruncate / Floor / Ceil as used by src/sse2.rs)
+#
+# Trusted float facts (binary32; each is a statement about IEEE arithmetic, none about glam):
+#   F1  for a constant c with 2^23 <= c <= 2^31:  (bits(|x|) <s bits(c))  <=>  x is not NaN and |x| < c
+#   F2  if |x| < 2^31:  int->float(cvtt(x)) == trunc(x)   (cvtt truncates toward zero exactly; the result fits i32; |x| >= 2^24 are
+#       integers already, smaller ones convert back exactly) - as a value, the sign of a zero result may differ
+#   F3  int->float(all-ones lane) == -1.0, int->float(0) == +0.0
+#   F4  if |x| < 2^31:  trunc(x) + (x < trunc(x) ? -1 : 0) == floor(x)  and  trunc(x) - (trunc(x) < x ? -1 : 0) == ceil(x), exactly
+#       (|x| < 2^23: |trunc(x)| + 1 <= 2^23 is representable; larger |x| are integers and the comparison is false)
+#   F5  if x is NaN, infinite or |x| >= 2^23 then trunc(x), floor(x), ceil(x) all equal x (NaN matches NaN)
+# Hence  ite(G_c(x), R(x), x) == R(x)  for R in {trunc, floor, ceil} written as above.
+
+_RT_LO = 0x4B000000   # 2^23
+_RT_HI = 0x4F000000   # 2^31
+
+
+def _rt_guard(c):
+    """-> x when c is  bits(|x|) <s bits(const in [2^23, 2^31])"""
+    if c.op == 'lt:i32' and len(c.args) == 2 and c.args[0].op == 'fabs' and tm.is_const(c.args[1]) and tm.csize(c.args[1]) == 4:
+        if _RT_LO <= tm.cbits(c.args[1]) <= _RT_HI:
+            return c.args[0].args[0]
+    return None
+
+
+RT_DIAG = []     # reasons collected while classifying round-trip algorithms (read by C01 to explain a mismatch)
+
+
+def _rt_guard_any(c):
+    """-> (x, bits of the constant) for any  bits(|x|) <s bits(const)"""
+    if c.op == 'lt:i32' and len(c.args) == 2 and c.args[0].op == 'fabs' and tm.is_const(c.args[1]) and tm.csize(c.args[1]) == 4:
+        return c.args[0].args[0], tm.cbits(c.args[1])
+    return None
+
+
+def _rt_offsets(a2, x, TR):
+    """the value touches x only through comparisons with trunc(x): decide it per ordering.  -> (k_neg_frac, k_pos_frac, k_integer) with
+    a2 == trunc(x) + k in the three cases x < trunc(x), x > trunc(x), x == trunc(x); None when a2 is not of that form"""
+    ks = []
+    for (lt_x_t, lt_t_x) in ((True, False), (False, True), (False, False)):
+        eq = not lt_x_t and not lt_t_x
+        B = lambda v: tm.TRUE if v else tm.FALSE
+        m = {tm.f2('flt', x, TR): B(lt_x_t), tm.f2('flt', TR, x): B(lt_t_x), tm.f2('feq', x, TR): B(eq), tm.f2('fne', x, TR): B(not eq),
+             tm.f2('fle', x, TR): B(lt_x_t or eq), tm.f2('fle', TR, x): B(lt_t_x or eq)}
+        m = {k: v for k, v in m.items() if k.op not in ('c',)}
+        v = tm.subst(a2, m)
+        if v is TR:
+            ks.append(0.0)
+        elif v.op == 'fadd' and len(v.args) == 2 and TR in v.args:
+            o = v.args[0] if v.args[1] is TR else v.args[1]
+            if o.op == 'fneg' and tm.is_const(o.args[0]):
+                ks.append(-tm.f_of(o.args[0]))
+            elif tm.is_const(o):
+                ks.append(tm.f_of(o))
+            else:
+                return None
+        else:
+            return None
+    return tuple(ks)
+
+
+_RT_PRIMS = {(0.0, 0.0, 0.0): 'trunc', (-1.0, 0.0, 0.0): 'floor', (0.0, 1.0, 0.0): 'ceil'}
+
+
+def int_roundtrip_rewrite(t, memo=None):
+    """rewrite the integer round-trip trunc / floor / ceil algorithms to the primitives trunc(x) / floor(x) / ceil(x) (facts F1-F5).
+    The adjusted value may be written in any way that depends on x only through comparisons with trunc(x): it is decided per ordering."""
+    if memo is None:
+        memo = {}
+    r = memo.get(t.id)
+    if r is not None:
+        return r
+    if t.op in ('atom', 'c', 'top', 'uninit', 'ptr'):
+        memo[t.id] = t
+        return t
+    args = [int_roundtrip_rewrite(a, memo) if isinstance(a, T) else a for a in t.args]
+    r = None
+    if t.op == 'ite':
+        c, a, b = args
+        g = _rt_guard_any(c)
+        if g is not None and b is g[0]:
+            x, cb = g
+            Tx = mk('x86:cvtepi32_ps', mk('x86:cvttps_epi32', x))
+            TR = mk('trunc', x)
+            if Tx in a.deps or a is Tx or _mentions(a, Tx):
+                if cb < _RT_LO:
+                    RT_DIAG.append('values with %#x <= bits(|x|) < 0x4b000000 (below 2^23, so possibly fractional) bypass the rounding and are returned unchanged' % cb)
+                elif cb > _RT_HI:
+                    RT_DIAG.append('values with 2^31 <= |x| (bits up to %#x) are sent through cvttps_epi32, which overflows to i32::MIN' % cb)
+                else:
+                    a2 = _rt_masks(tm.subst(a, {Tx: TR}))
+                    ks = _rt_offsets(a2, x, TR)
+                    if ks is not None:
+                        nm = _RT_PRIMS.get(ks)
+                        if nm is not None:
+                            r = mk(nm, x)
+                        else:
+                            RT_DIAG.append('round-trip algorithm returns trunc(x)%+g for negative non-integers, trunc(x)%+g for positive non-integers and x%+g for integers: not trunc, floor or ceil' % ks)
+    if r is None:
+        r = tm.rebuild(t.op, args) if any(p is not q for p, q in zip(args, t.args)) else t
+    memo[t.id] = r
+    return r
+
+
+def _mentions(t, sub):
+    seen = set()
+    st = [t]
+    while st:
+        u = st.pop()
+        if u is sub:
+            return True
+        if u.id in seen:
+            continue
+        seen.add(u.id)
+        st.extend(a for a in u.args if isinstance(a, T))
+    return False
+
+
+def _rt_masks(t, memo=None):
+    """F3: int->float of a canonical mask lane is ite(b, -1.0, 0.0)"""
+    if memo is None:
+        memo = {}
+    r = memo.get(t.id)
+    if r is not None:
+        return r
+    if t.op in ('atom', 'c', 'top', 'uninit', 'ptr'):
+        return t
+    if t.op == 'x86:cvtepi32_ps' and t.args[0].op == 'm32':
+        r = ite(t.args[0].args[0], tm.fconst(-1.0, 4), tm.fconst(0.0, 4))
+    else:
+        args = [_rt_masks(a, memo) if isinstance(a, T) else a for a in t.args]
+        r = tm.rebuild(t.op, args) if any(p is not q for p, q in zip(args, t.args)) else t
+    memo[t.id] = r
+    return r
+
+
+def round_via_trunc_rewrite(t):
+    """trusted identity: round(x) == trunc(x) + (|x - trunc(x)| >= 0.5 ? copysign(1, x) : 0) for every x up to -0 == +0
+    (x - trunc(x) is exact; |x| >= 2^23, infinities and NaN pass through)"""
+    truncs = set()
+    seen = set()
+    st = [t]
+    while st:
+        u = st.pop()
+        if u.id in seen:
+            continue
+        seen.add(u.id)
+        if u.op == 'trunc':
+            truncs.add(u)
+        st.extend(a for a in u.args if isinstance(a, T))
+    m = {}
+    for T_ in truncs:
+        x = T_.args[0]
+        for sz in (4, 8):
+            try:
+                alt = tm.f2('fadd', T_, ite(tm.f2('fle', tm.fconst(0.5, sz), tm.f1('fabs', tm.f2('fsub', x, T_))), mk('copysign', tm.fconst(1.0, sz), x), tm.fconst(0.0, sz)))
+            except Exception:
+                continue
+            m[alt] = mk('round', x)
+    return tm.subst(t, m) if m else t
+
+
+def rounding_rewrite(t):
+    return round_via_trunc_rewrite(int_roundtrip_rewrite(t))
